@@ -629,6 +629,16 @@ func main() {
 					d = "sha384:" + strings.Repeat("cd", 48)
 				}
 				op = &model.Op{Kind: []string{"GetBlob", "ResolveBlob", "GetManifest", "ResolveManifest", "DeleteBlob"}[rng.IntN(5)], Repo: uu.Repos[rng.IntN(len(uu.Repos))], Digest: d}
+			case 3:
+				// a chunked upload resumed at an offset the session is not at: the refusal comes from the
+				// registry's Write, which the client meets in a PATCH or only in the final PUT
+				data := []byte(fmt.Sprintf("stale resume %d %d %s", h, i, strings.Repeat("z", rng.IntN(40))))
+				cut := 1 + rng.IntN(len(data)-1)
+				op = &model.Op{Kind: "Upload", Repo: uu.Repos[rng.IntN(len(uu.Repos))], Parts: [][]byte{data[:cut], data[cut:]}, ResumeAt: []int{1},
+					ResumeDelta: []int64{-1, 1, 3, -2}[rng.IntN(4)], Digest: model.Digest(data), Hint: []int{0, 1, 3, 100, 10000}[rng.IntN(5)]}
+				if rng.IntN(3) == 0 {
+					op.Digest = model.Digest(data[cut:])
+				}
 			default:
 				op = uu.GenOp(rng, w.m, opts)
 			}
